@@ -30,7 +30,7 @@ ASAN_ENV = {"ASAN_OPTIONS": "abort_on_error=1:detect_leaks=0:allocator_may_retur
 
 
 # recursive operators over files of ~100 tokens need a deeper Java stack than the default
-TLC_JAVA = "-Xmx8g -XX:+UseParallelGC -Xss256m"
+TLC_JAVA = "-Xmx8g -XX:+UseParallelGC -Xss64m"
 
 
 def use_asan():
@@ -129,7 +129,7 @@ def fault_model(ck, picks, level, workers):
     pp = os.path.join(w, "bases.ndjson")
     vlib.write_ndjson(pp, picks)
     mcfg = os.path.join(w, "mcf.cfg")
-    open(mcfg, "w").write("SPECIFICATION Spec\nCONSTANTS\n Level = %d\nCHECK_DEADLOCK FALSE\n" % level)
+    open(mcfg, "w").write("SPECIFICATION Spec\nCONSTANTS\n Level = %d\nCONSTRAINT Emit\nCHECK_DEADLOCK FALSE\n" % level)
     res = vlib.run_tlc("MC_NeutralFault", mcfg, workers=workers, env={"PICKS": pp, "JAVA_TOOL_OPTIONS": TLC_JAVA}, timeout=6000, heap="8g")
     if res.violation:
         raise Broken("MC_NeutralFault reports an error:\n" + res.violation)
@@ -137,10 +137,11 @@ def fault_model(ck, picks, level, workers):
     invalid = [e for e in res.emitted if e["kind"] == "invalid-base"]
     if invalid:
         raise Broken("a chosen base file is not valid on the model: %s" % json.dumps(invalid[0]))
-    faults = [e for e in res.emitted if e["kind"] not in ("base", "invalid-base")]
     nexp = sum(b["nfaults"] for b in bases.values())
-    if len(faults) != nexp:
-        raise Broken("MC_NeutralFault emitted %d faulty files, %d expected" % (len(faults), nexp))
+    nemit = len([e for e in res.emitted if e["kind"] not in ("base", "invalid-base")])
+    faults = [e for e in res.emitted if e["kind"] not in ("base", "invalid-base", "noop")]
+    if nemit != nexp:
+        raise Broken("MC_NeutralFault emitted %d faulty files, %d expected" % (nemit, nexp))
     faults.sort(key=lambda e: (e["base"], e["j"]))
     log("[C09] TLC: %d valid files, %d faulty files classified in %.1fs" % (len(bases), len(faults), res.wall))
     return bases, faults, res
